@@ -276,6 +276,21 @@ func verifMachineMem(k int, caps []int64) (system.System, []*libmem.Node, int) {
 			{ID: 1, MemType: system.MemoryTypeDRAM, Normal: true, Distance: []int{21, 10, 28}},
 			{ID: 2, MemType: system.MemoryTypePMEM, Normal: true, Distance: []int{17, 28, 10}},
 		}
+	case 6: // 1 socket x 2 dies x 2 NUMA nodes per die x 2 CPUs: socket > die > NUMA node pools
+		for id := 0; id < 8; id++ {
+			cpus = append(cpus, system.VerifCPU{ID: id, Die: id / 4, Node: id / 2, Core: id / 2, Cluster: id / 2, Kind: P, EPP: system.EPPUnknown, CacheGroup: -1})
+		}
+		for n := 0; n < 4; n++ {
+			d := []int{21, 21, 21, 21}
+			for m := 0; m < 4; m++ {
+				if m == n {
+					d[m] = 10
+				} else if m/2 == n/2 {
+					d[m] = 12
+				}
+			}
+			nodes = append(nodes, system.VerifNode{ID: n, MemType: system.MemoryTypeDRAM, Normal: true, Distance: d})
+		}
 	case 5: // 1 socket, 1 NUMA node, 4 cores x 2 threads: a single pool
 		for id := 0; id < 8; id++ {
 			cpus = append(cpus, system.VerifCPU{ID: id, Core: id / 2, Cluster: id / 2, Kind: P, EPP: system.EPPUnknown, CacheGroup: -1})
